@@ -37,6 +37,7 @@ type entry struct {
 	DeclSize int64 // -1 = honest
 	BadCRC   bool
 	Deflate  bool // honest entries only
+	DirMode  bool // the header carries directory mode bits (whatever the name says)
 }
 
 type unzipCase struct {
@@ -82,6 +83,9 @@ func genCase(t *rapid.T) unzipCase {
 	}
 	hostile := rapid.Bool().Draw(t, "hostile")
 	n := rapid.IntRange(0, 10).Draw(t, "nentries")
+	if gen.Chance(t, 3, "manyentries") {
+		n = rapid.IntRange(25, 40).Draw(t, "nentries2")
+	}
 	for i := 0; i < n; i++ {
 		var e entry
 		e.DeclSize = -1
@@ -100,7 +104,13 @@ func genCase(t *rapid.T) unzipCase {
 			e.Content = rapid.SliceOfN(rapid.Byte(), 0, 20).Draw(t, "content")
 		}
 		if hostile && gen.Chance(t, 8, "lie") {
-			switch rapid.IntRange(0, 5).Draw(t, "liekind") {
+			switch rapid.IntRange(0, 8).Draw(t, "liekind") {
+			case 6:
+				e.DeclSize = zipref.MaxGoMod // exactly at the limit: the check accepts, extraction then fails on the size
+			case 7:
+				e.DeclSize = zipref.MaxZipFile / 2
+			case 8:
+				e.DeclSize = zipref.MaxZipFile
 			case 0:
 				e.DeclSize = int64(len(e.Content)) + 1
 			case 1:
@@ -120,6 +130,9 @@ func genCase(t *rapid.T) unzipCase {
 			}
 		} else if rapid.IntRange(0, 3).Draw(t, "deflate") == 0 {
 			e.Deflate = true
+		}
+		if hostile && gen.Chance(t, 6, "dirmode") {
+			e.DirMode = true
 		}
 		c.Entries = append(c.Entries, e)
 	}
@@ -178,7 +191,11 @@ func writeZip(path string, es []entry) error {
 	for _, e := range es {
 		honest := e.DeclSize < 0 && !e.BadCRC
 		if honest && e.Deflate && !strings.HasSuffix(e.Name, "/") {
-			w, err := zw.CreateHeader(&zip.FileHeader{Name: e.Name, Method: zip.Deflate})
+			fh := &zip.FileHeader{Name: e.Name, Method: zip.Deflate}
+			if e.DirMode {
+				fh.SetMode(os.ModeDir | 0o755)
+			}
+			w, err := zw.CreateHeader(fh)
 			if err != nil {
 				return err
 			}
@@ -197,6 +214,9 @@ func writeZip(path string, es []entry) error {
 			}
 		}
 		h := &zip.FileHeader{Name: e.Name, Method: zip.Store, CRC32: crc, CompressedSize64: uint64(len(e.Content)), UncompressedSize64: uint64(size)}
+		if e.DirMode {
+			h.SetMode(os.ModeDir | 0o755)
+		}
 		w, err := zw.CreateRaw(h)
 		if err != nil {
 			return err
